@@ -150,6 +150,7 @@ type env struct {
 	ctx   context.Context
 	rt    wazero.Runtime
 	guest wazero.CompiledModule
+	named wazero.CompiledModule // same guest with a name section (module name "fromsection")
 	dirs  []string // host dirs with marker files
 	mapfs []fstest.MapFS
 	bufs  []*bytes.Buffer
@@ -180,6 +181,14 @@ func getEnv() *env {
 		}
 		var err error
 		e.guest, err = e.rt.CompileModule(ctx, m.Encode())
+		if err != nil {
+			panic(err)
+		}
+		// name section: subsection 0 (module name) = "fromsection"
+		nm := []byte("fromsection")
+		sub := append([]byte{0, byte(len(nm) + 1), byte(len(nm))}, nm...)
+		m.Customs = append(m.Customs, wenc.Custom{Name: "name", Data: sub})
+		e.named, err = e.rt.CompileModule(ctx, m.Encode())
 		if err != nil {
 			panic(err)
 		}
@@ -916,6 +925,19 @@ func buildTree(tc treeCase, conc bool) *treeResult {
 	before := e.insts
 	t.observeAll("after-derivations")
 	t.recheckSnapshots("instantiate")
+	// instantiate with a binary that carries a module name in its name section (a config without
+	// WithName takes the name from there: that must not be written back into the config)
+	for _, n := range t.nodes {
+		if n.kind != "M" {
+			continue
+		}
+		e.insts++
+		if mod, err := e.rt.InstantiateModule(e.ctx, e.named, n.val.(wazero.ModuleConfig)); err == nil {
+			mod.Close(e.ctx)
+		}
+	}
+	t.res.Ops["InstantiateModule(named binary)"]++
+	t.recheckSnapshots("instantiate-binary-with-name-section")
 	// instantiate some M nodes with a sock config in the context
 	for k := 0; k < 3; k++ {
 		var ms, ss []int
